@@ -100,3 +100,34 @@ Proof.
   { intros ex. unfold dec_to_f64_clamped. destruct (_ <=? 0); [reflexivity|]. destruct (400 <? _); [reflexivity|]. destruct (_ <? -400); [reflexivity|]. apply dec_to_f64_valid. }
   destruct ip as [|i0 ip']; destruct fp as [|f0 fp']; try discriminate; destruct (parse_exp r2) as [ex|]; try discriminate; injection H as <-; apply G.
 Qed.
+
+(** every number literal the lexer accepts is a valid binary64; if it is finite it prints (NumPrintable.v) *)
+From Pakhi Require Import Syntax Tables Lexer Interp.
+From Pakhi.Proofs Require Import TableFacts Num NumText NumShape NumPrintable.
+
+Theorem literal_valid rest line file v n : consume_num rest line file = Ok (v, n) -> valid v.
+Proof.
+  intros H. destruct (literal_value rest line file v n H) as (sign & body & s & k & _ & Hp & _). exact (parse_f64_valid _ _ Hp).
+Qed.
+
+Theorem valid_numbers_print x : valid x -> (forall s, x <> S754_infinity s) -> x <> S754_nan -> exists s, to_bn_num x = Some s.
+Proof.
+  intros Hv Hi Hn. destruct x as [sg|sg| |sg m e].
+  - unfold to_bn_num. cbn [f64_to_string]. destruct sg; vm_compute; eauto.
+  - exfalso. exact (Hi sg eq_refl).
+  - congruence.
+  - apply finite_numbers_are_printable. exact Hv.
+Qed.
+
+(** a finite result of one arithmetic operation on valid numbers is printable: no arithmetic result is "unprintable but finite" *)
+Definition finite64 (x : f64) : Prop := (forall s, x <> S754_infinity s) /\ x <> S754_nan.
+
+Theorem arithmetic_results_print x y r :
+  valid x -> valid y ->
+  r = f_add x y \/ r = f_sub x y \/ r = f_mul x y \/ r = f_div x y \/ r = f_rem x y \/ r = f_neg x ->
+  finite64 r -> exists s, to_bn_num r = Some s.
+Proof.
+  intros Hx Hy Hr [Hi Hn]. apply valid_numbers_print; [|exact Hi|exact Hn].
+  destruct Hr as [->|[->|[->|[->|[->| ->]]]]];
+    [apply f_add_valid|apply f_sub_valid|apply f_mul_valid|apply f_div_valid|apply f_rem_valid|apply f_neg_valid]; assumption.
+Qed.
